@@ -20,7 +20,8 @@ SHRINK_LISTS = [('items',), ('items', '*', 'inner', '*'), ('cuts',)]
 EXPECTED_PROBES = ['ping_between_fragments', 'many_pings_one_read',
                    'ping_in_reply_read', 'ping_then_close_same_read',
                    'auto_pong_off', 'ping_after_client_close',
-                   'pong_write_failed', 'app_write_after_pong_checked']
+                   'pong_write_failed', 'app_write_after_pong_checked',
+                   'violation_behind_pings']
 
 
 def plan(tier):
@@ -49,7 +50,7 @@ def make_case(family, i, rng, tier):
             'react': rng.random() < 0.6}
     if rng.random() < 0.3:
         case['sclose'] = {'code': 1000, 'reason': u'done'}
-    mode = rng.choice(['plain', 'plain', 'app_close', 'fault'])
+    mode = rng.choice(['plain', 'plain', 'app_close', 'fault', 'bad_tail'])
     case['mode'] = mode
     enc = ST.encode_items(items)
     if mode == 'app_close' and enc.expected:
@@ -57,6 +58,10 @@ def make_case(family, i, rng, tier):
         name = enc.expected[k][0]
         nth = sum(1 for e in enc.expected[:k] if e[0] == name)
         case['app_close_at'] = {'name': name, 'nth': nth}
+    if mode == 'bad_tail':
+        case.pop('sclose', None)
+        case['bad_opcode'] = rng.choice([3, 7, 0xB, 0xF])
+        case['auto_pong'] = True
     if mode == 'fault':
         case['auto_pong'] = True
         case['react'] = False
@@ -78,6 +83,10 @@ def build(case, with_fault=True):
     if case.get('sclose'):
         items.append(dict(case['sclose'], kind='close'))
     enc = ST.encode_items(items)
+    if case.get('mode') == 'bad_tail':
+        # a protocol violation right behind the Pings, in the same reads:
+        # the Pings that came first must still be reported and answered
+        ST.emit(enc, case.get('bad_opcode', 0xB), b'bad')
     app = []
     if case.get('react'):
         for n in ('ready', 'text', 'binary', 'ping', 'pong', 'closing'):
@@ -202,6 +211,10 @@ def execute(case):
                 break
         # the event stream itself
         exp = list(enc.expected)
+        if mode == 'bad_tail':
+            res.stats['probe:violation_behind_pings'] += 1
+            if names.count('protocol_error') != 1:
+                res.bad('C14/bad_tail/no_protocol_error', 'events %r' % names[-6:])
         if case.get('app_close_at') and case.get('sclose'):
             exp[-1] = ('closed',) + exp[-1][1:]
         if got != exp:
